@@ -128,10 +128,10 @@ Proof.
   assert (NC : false = true -> canon t /\ canon r) by discriminate.
   assert (A := radd_post false t r Ht Hr NC). assert (S := rsub_post false t r Ht Hr NC).
   assert (M := rmul_post false t r Ht Hr NC). destruct (rdiv_spec false t r Ht Hr NC) as [_ D].
-  split; [split; [apply A | eapply add_post_Q; eassumption]|].
-  split; [split; [apply S | eapply sub_post_Q; eassumption]|].
-  split; [split; [apply M | eapply mul_post_Q; eassumption]|].
-  intros Hn. destruct (D Hn) as (x & E & P). exists x. split; [exact E|]. split; [apply P | eapply div_post_Q; eassumption].
+  split; [split; [exact (proj1 A) | exact (add_post_Q _ _ _ _ Ht Hr A)]|].
+  split; [split; [exact (proj1 S) | exact (sub_post_Q _ _ _ _ Ht Hr S)]|].
+  split; [split; [exact (proj1 M) | exact (mul_post_Q _ _ _ _ Ht Hr M)]|].
+  intros Hn. destruct (D Hn) as (x & E & P). exists x. split; [exact E|]. split; [exact (proj1 P) | exact (div_post_Q _ _ _ _ Ht Hr Hn P)].
 Qed.
 
 Definition NoReduce_inplace_stmt := forall alias r s, 0 < den s -> 0 < den r -> (alias = true -> r = s) ->
@@ -144,18 +144,18 @@ Proof.
   intros alias r s Hs Hr Ha.
   assert (NC : false = true -> canon s /\ canon r) by discriminate.
   assert (A := addin_post alias false r s Hs Hr NC Ha). assert (S := subin_post alias false r s Hs Hr NC Ha).
-  split; [split; [apply A | eapply add_post_Q; eassumption]|].
-  split; [split; [apply S | eapply sub_post_Q; eassumption]|].
-  destruct alias.
-  - rewrite (Ha eq_refl) in *.
+  split; [split; [exact (proj1 A) | exact (add_post_Q _ _ _ _ Hs Hr A)]|].
+  split; [split; [exact (proj1 S) | exact (sub_post_Q _ _ _ _ Hs Hr S)]|].
+  clear A S. destruct alias.
+  - assert (E := Ha eq_refl). subst r.
     assert (M := mulin_alias false s s Hs ltac:(discriminate)).
-    split; [split; [apply M | eapply mul_post_Q; eassumption]|].
+    split; [split; [exact (proj1 M) | exact (mul_post_Q _ _ _ _ Hs Hs M)]|].
     intros Hn. destruct (divin_alias false s s Hs Hn) as (x & E & P & C). exists x. split; [exact E|].
-    split; [apply P | eapply div_post_Q; eassumption].
+    split; [exact (proj1 P) | exact (div_post_Q _ _ _ _ Hs Hs Hn P)].
   - assert (M := mulin_noalias_nored r s Hs Hr).
-    split; [split; [apply M | eapply mul_post_Q; eassumption]|].
+    split; [split; [exact (proj1 M) | exact (mul_post_Q _ _ _ _ Hs Hr M)]|].
     intros Hn. destruct (divin_noalias_nored r s Hs Hr Hn) as (x & E & P). exists x. split; [exact E|].
-    split; [apply P | eapply div_post_Q; eassumption].
+    split; [exact (proj1 P) | exact (div_post_Q _ _ _ _ Hs Hr Hn P)].
 Qed.
 
 (* ------------------------------------------------------------------ constructors *)
@@ -175,8 +175,8 @@ Qed.
 Lemma ctor_post_Q : forall n d x, d <> 0 -> ctor_post n d x -> canon x /\ (toQ x == inject_Z n / inject_Z d)%Q.
 Proof.
   intros n d x Hd [C V]. split; [exact C|].
-  assert (E : (toQ x == toQ (n, 1) / toQ (d, 1))%Q).
-  { apply toQ_div; cbn [num den fst snd]; try lia; [apply C | lia]. }
+  assert (E : (toQ x == toQ (n, 1%Z) / toQ (d, 1%Z))%Q).
+  { apply toQ_div; cbn [num den fst snd]; try lia; apply C. }
   exact E.
 Qed.
 
@@ -203,7 +203,7 @@ Proof.
     + destruct (of_text_spec n true d (fun _ => Hd)) as (x & E & P). exists x. split; [exact E|]. apply ctor_post_Q; assumption.
     + intros redarg Hr. destruct (proj2 (mk_nd_spec n d redarg) Hd) as (x & E & P & V & Z & _ & _). exists x.
       split; [exact E|]. split; [exact P|]. split; [|exact Z].
-      assert (E2 : (toQ x == toQ (n, 1) / toQ (d, 1))%Q) by (apply toQ_div; cbn [num den fst snd]; lia).
+      assert (E2 : (toQ x == toQ (n, 1%Z) / toQ (d, 1%Z))%Q) by (apply toQ_div; cbn [num den fst snd]; lia).
       exact E2.
 Qed.
 
@@ -277,5 +277,21 @@ Proof.
   destruct (addin_subin_thm false p c Cc Cm ltac:(discriminate)) as (C2 & V2 & C6 & V6).
   destruct (sub_thm c p Cc Cm) as [C3 V3]. destruct (sub_thm p c Cm Cc) as [C4 V4].
   rewrite Vm in *.
-  repeat split; assumption.
+  split; [split; assumption|]. split; [split; assumption|]. split; [split; assumption|].
+  split; [split; assumption|]. split; [split; assumption|]. split; assumption.
 Qed.
+
+(* ------------------------------------------------------------------ the hypotheses are satisfiable; spot evaluations *)
+Example canon_example : canon (-3, 4) /\ canon (0, 1) /\ canon (100000000000000000000000000000000000000000001, 3).
+Proof. repeat split; cbn; try lia; reflexivity. Qed.
+Example not_canon_example : ~ canon (2, 4) /\ ~ canon (0, 5) /\ ~ canon (1, -2).
+Proof. repeat split; intros [H G]; cbn in *; try lia; discriminate. Qed.
+(* different limb counts: compare() returns 2, the operators still answer by its sign (63a4489) *)
+Example limb_difference_example :
+  let a := (100000000000000000000000000000000000000000001, 3) in let b := (1, 3) in
+  rcompare a b = 2 /\ op_gt a b = true /\ op_lt a b = false /\ op_eq a b = false /\ op_lt b a = true.
+Proof. vm_compute. repeat split. Qed.
+Example add_example : radd true (1, 6) (1, 10) = (4, 15) /\ addin true (1, 2) true (1, 2) = (1, 1) /\ subin true (1, 2) true (1, 2) = (0, 1).
+Proof. vm_compute. repeat split. Qed.
+Example double_example : of_double true true 0 1 = Some (-1, 2 ^ 1074) /\ of_double true false 1023 0 = Some (1, 1).
+Proof. vm_compute. repeat split. Qed.
